@@ -1,6 +1,7 @@
 package xmlenc
 
 import (
+	"crypto"
 	"crypto/rsa"
 	"crypto/x509"
 	"encoding/base64"
@@ -18,6 +19,7 @@ type RSA struct {
 	DigestMethod DigestMethod // only for OAEP
 
 	algorithm    string
+	mgfHash      crypto.Hash // only for xmlenc11 OAEP, set while decrypting
 	keyEncrypter func(e RSA, pubKey *rsa.PublicKey, plaintext []byte) ([]byte, error)
 	keyDecrypter func(e RSA, privKey *rsa.PrivateKey, ciphertext []byte) ([]byte, error)
 }
@@ -66,6 +68,17 @@ func (e RSA) Encrypt(certificate interface{}, plaintext []byte, nonce []byte) (*
 		dm := encryptionMethodEl.CreateElement("ds:DigestMethod")
 		dm.CreateAttr("Algorithm", e.DigestMethod.Algorithm())
 		dm.CreateAttr("xmlns:ds", "http://www.w3.org/2000/09/xmldsig#")
+	}
+	if e.algorithm == oaep11Algorithm {
+		// xmlenc11 rsa-oaep: the mask generation function is MGF1 with SHA-1 unless
+		// an MGF element says otherwise. We use MGF1 with the digest's hash function.
+		mgfAlgorithm, err := mgfAlgorithmForDigest(e.DigestMethod)
+		if err != nil {
+			return nil, err
+		}
+		mgfEl := encryptionMethodEl.CreateElement("xenc11:MGF")
+		mgfEl.CreateAttr("Algorithm", mgfAlgorithm)
+		mgfEl.CreateAttr("xmlns:xenc11", "http://www.w3.org/2009/xmlenc11#")
 	}
 	{
 		innerKeyInfoEl := encryptedKey.CreateElement("ds:KeyInfo")
@@ -118,6 +131,16 @@ func (e RSA) Decrypt(key interface{}, ciphertextEl *etree.Element) ([]byte, erro
 		}
 	}
 
+	e.mgfHash = crypto.SHA1
+	if mgfEl := ciphertextEl.FindElement("./EncryptionMethod/MGF"); mgfEl != nil {
+		mgfAlgorithm := mgfEl.SelectAttrValue("Algorithm", "")
+		mgfHash, ok := mgfAlgorithms[mgfAlgorithm]
+		if !ok {
+			return nil, ErrAlgorithmNotImplemented(mgfAlgorithm)
+		}
+		e.mgfHash = mgfHash
+	}
+
 	return e.keyDecrypter(e, rsaKey, ciphertext)
 }
 
@@ -137,7 +160,17 @@ func OAEP() RSA {
 			return rsa.EncryptOAEP(e.DigestMethod.Hash(), RandReader, pubKey, plaintext, nil)
 		},
 		keyDecrypter: func(e RSA, privKey *rsa.PrivateKey, ciphertext []byte) ([]byte, error) {
-			return rsa.DecryptOAEP(e.DigestMethod.Hash(), RandReader, privKey, ciphertext, nil)
+			// rsa-oaep-mgf1p always uses MGF1 with SHA-1, whatever the digest method
+			// (XML Encryption 1.0 section 5.4.2).
+			plaintext, err := decryptOAEP(e.DigestMethod, crypto.SHA1, privKey, ciphertext)
+			if err != nil && e.DigestMethod.Algorithm() != SHA1.Algorithm() {
+				// This package itself (Encrypt above, via rsa.EncryptOAEP) uses the
+				// digest's hash function for MGF1 as well. Keep accepting such keys.
+				if legacy, legacyErr := rsa.DecryptOAEP(e.DigestMethod.Hash(), RandReader, privKey, ciphertext, nil); legacyErr == nil {
+					return legacy, nil
+				}
+			}
+			return plaintext, err
 		},
 	}
 }
@@ -150,13 +183,13 @@ func OAEP_SHA256() RSA { //nolint:revive
 	return RSA{
 		BlockCipher:  AES256CBC,
 		DigestMethod: SHA256,
-		algorithm:    "http://www.w3.org/2009/xmlenc11#rsa-oaep",
+		algorithm:    oaep11Algorithm,
 
 		keyEncrypter: func(e RSA, pubKey *rsa.PublicKey, plaintext []byte) ([]byte, error) {
 			return rsa.EncryptOAEP(e.DigestMethod.Hash(), RandReader, pubKey, plaintext, nil)
 		},
 		keyDecrypter: func(e RSA, privKey *rsa.PrivateKey, ciphertext []byte) ([]byte, error) {
-			return rsa.DecryptOAEP(e.DigestMethod.Hash(), RandReader, privKey, ciphertext, nil)
+			return decryptOAEP(e.DigestMethod, e.mgfHash, privKey, ciphertext)
 		},
 	}
 }
@@ -169,13 +202,13 @@ func OAEP_SHA512() RSA { //nolint:revive
 	return RSA{
 		BlockCipher:  AES256CBC,
 		DigestMethod: SHA512,
-		algorithm:    "http://www.w3.org/2009/xmlenc11#rsa-oaep",
+		algorithm:    oaep11Algorithm,
 
 		keyEncrypter: func(e RSA, pubKey *rsa.PublicKey, plaintext []byte) ([]byte, error) {
 			return rsa.EncryptOAEP(e.DigestMethod.Hash(), RandReader, pubKey, plaintext, nil)
 		},
 		keyDecrypter: func(e RSA, privKey *rsa.PrivateKey, ciphertext []byte) ([]byte, error) {
-			return rsa.DecryptOAEP(e.DigestMethod.Hash(), RandReader, privKey, ciphertext, nil)
+			return decryptOAEP(e.DigestMethod, e.mgfHash, privKey, ciphertext)
 		},
 	}
 }
@@ -197,7 +230,45 @@ func PKCS1v15() RSA {
 	}
 }
 
+const oaep11Algorithm = "http://www.w3.org/2009/xmlenc11#rsa-oaep"
+
+// mgfAlgorithms are the mask generation functions of xmlenc11.
+var mgfAlgorithms = map[string]crypto.Hash{
+	"http://www.w3.org/2009/xmlenc11#mgf1sha1":   crypto.SHA1,
+	"http://www.w3.org/2009/xmlenc11#mgf1sha224": crypto.SHA224,
+	"http://www.w3.org/2009/xmlenc11#mgf1sha256": crypto.SHA256,
+	"http://www.w3.org/2009/xmlenc11#mgf1sha384": crypto.SHA384,
+	"http://www.w3.org/2009/xmlenc11#mgf1sha512": crypto.SHA512,
+}
+
+// mgfAlgorithmForDigest returns the identifier of MGF1 with the hash function of dm.
+func mgfAlgorithmForDigest(dm DigestMethod) (string, error) {
+	if ch, ok := dm.(interface{ CryptoHash() crypto.Hash }); ok {
+		for algorithm, h := range mgfAlgorithms {
+			if h == ch.CryptoHash() {
+				return algorithm, nil
+			}
+		}
+	}
+	if dm == nil {
+		return "", ErrAlgorithmNotImplemented("")
+	}
+	return "", ErrAlgorithmNotImplemented("MGF1 with " + dm.Algorithm())
+}
+
+// decryptOAEP decrypts ciphertext using the hash function of dm for the label and
+// mgfHash for MGF1.
+func decryptOAEP(dm DigestMethod, mgfHash crypto.Hash, privKey *rsa.PrivateKey, ciphertext []byte) ([]byte, error) {
+	ch, ok := dm.(interface{ CryptoHash() crypto.Hash })
+	if !ok || !ch.CryptoHash().Available() || !mgfHash.Available() {
+		// A digest method registered by the application: we only know its hash.Hash.
+		return rsa.DecryptOAEP(dm.Hash(), RandReader, privKey, ciphertext, nil)
+	}
+	return privKey.Decrypt(RandReader, ciphertext, &rsa.OAEPOptions{Hash: ch.CryptoHash(), MGFHash: mgfHash})
+}
+
 func init() {
 	RegisterDecrypter(OAEP())
+	RegisterDecrypter(OAEP_SHA256())
 	RegisterDecrypter(PKCS1v15())
 }
